@@ -19,6 +19,8 @@ impl HashVal {
 pub uninterp spec fn h1(b: Seq<u8>) -> HashVal;                 // tmelcrypt::hash_single
 pub uninterp spec fn hk(key: Seq<u8>, b: Seq<u8>) -> HashVal;  // tmelcrypt::hash_keyed
 
+// A-ED: Ed25519 verification is an uninterpreted, deterministic, total predicate
+pub uninterp spec fn sig_ok(pk: Ed25519PK, msg: Seq<u8>, sig: Seq<u8>) -> bool;
 // ---- melstructs newtypes
 #[derive(Clone, Copy, PartialEq, Eq, Hash, Structural)] pub struct TxHash(pub HashVal);
 #[derive(Clone, Copy, PartialEq, Eq, Hash, Structural)] pub struct Address(pub HashVal);
@@ -28,7 +30,7 @@ pub uninterp spec fn hk(key: Seq<u8>, b: Seq<u8>) -> HashVal;  // tmelcrypt::has
 #[derive(Clone, Copy, PartialEq, Eq, Hash, Structural)] pub struct CoinValue(pub u128);
 #[derive(Clone, Copy, PartialEq, Eq, Hash, Structural)] pub struct BlockHeight(pub u64);
 #[derive(Clone, Copy, PartialEq, Eq, Hash, Structural)] pub enum NetID { Testnet, Custom02, Custom03, Custom04, Custom05, Custom06, Custom07, Custom08, Mainnet }
-#[derive(Clone, Copy, PartialEq, Eq, Hash, Structural)] pub struct Ed25519PK(pub [u8; 32]);
+#[derive(Clone, Copy, PartialEq, Eq, Hash, Structural, PartialOrd, Ord)] pub struct Ed25519PK(pub [u8; 32]);
 
 impl FromSpecImpl<HashVal> for TxHash { open spec fn obeys_from_spec() -> bool { true } open spec fn from_spec(v: HashVal) -> TxHash { TxHash(v) } }
 impl From<HashVal> for TxHash { fn from(v: HashVal) -> (r: TxHash) { TxHash(v) } }
